@@ -321,6 +321,11 @@ func c18CheckSession(a *ChildArgs, s *c18Session, phase string, mirror bool) *ls
 		}
 	}
 	for id, n := range got {
+		// a message whose standing as a request is doubtful (an id without a method, a broken params member) may be
+		// answered or not, but nothing is ever answered twice
+		if maybe[id] && want[id] == 0 && n > 1 {
+			a.Rec.Viol("C18/"+phase+"/response-duplicated/"+lab[id], "exactly one response carrying the request's id for each request", fmt.Sprintf("id %s (%s): %d responses for one message", id, lab[id], n), wit)
+		}
 		if want[id] == 0 && !maybe[id] {
 			a.Rec.Viol("C18/"+phase+"/response-unsolicited", "no response for notifications", fmt.Sprintf("%d responses with id %s that no request carried", n, id), wit)
 		}
@@ -678,6 +683,9 @@ func c18Child(a *ChildArgs) {
 			r := rand.New(rand.NewSource(base + int64(i)*15485863))
 			c18Diagnostics(a, r)
 			c18LexDiagnostics(a, r)
+			if i%8 == 0 {
+				c18SaveOnlyThenClose(a, r)
+			}
 		}
 	case "burst":
 		for i := 0; i < a.N; i++ {
@@ -1029,5 +1037,44 @@ func c18LexDiagnostics(a *ChildArgs, r *rand.Rand) {
 	// the unterminated lexeme starts on the last line (a never-closed comment or string may be reported where it opens: same line here)
 	if got := p.Diagnostics[0].Range.Start.Line; got != badLine {
 		a.Rec.Viol("C18/diagnostics/lexical-line", "each anchored on the line of the token that caused it", fmt.Sprintf("the ill-formed lexeme is on line %d (0-based), the diagnostic on line %d: %s", badLine, got, p.Diagnostics[0].Message), wit)
+	}
+}
+
+// c18SaveOnlyThenClose: text that reaches the server only through didSave (the document was never opened, or was
+// closed before) gets diagnostics; once the client closes that URI, nothing stale may remain published for it.
+func c18SaveOnlyThenClose(a *ChildArgs, r *rand.Rand) {
+	uri := c18URIs[1+r.Intn(2)]
+	bad := []string{"SELECT FROM", "SELECT a FROM t WHERE", "UPDATE SET", "SELECT 'open"}[r.Intn(4)]
+	s := &c18Session{docs: map[string]*c18Doc{}}
+	if r.Intn(2) == 0 {
+		// opened and closed earlier
+		s.open(uri, "SELECT 1", 1)
+		s.close(uri)
+	}
+	s.add(c18Step{Kind: "notification", Label: "textDocument/didSave+text@unopened", Bytes: lspNotif("textDocument/didSave", map[string]interface{}{"textDocument": map[string]interface{}{"uri": uri}, "text": bad})})
+	s.add(c18Step{Kind: "notification", Label: "textDocument/didClose@unopened", Bytes: lspNotif("textDocument/didClose", map[string]interface{}{"textDocument": map[string]interface{}{"uri": uri}})})
+	res := c18CheckSession(a, s, "save-only-close", true)
+	if res.Panic != "" || res.FrameErr != "" {
+		return
+	}
+	a.Rec.Count("evaluations", 1)
+	published, last := 0, -1
+	for i := range res.Frames {
+		f := &res.Frames[i]
+		if f.Method == "textDocument/publishDiagnostics" {
+			var p struct {
+				URI         string
+				Diagnostics []json.RawMessage
+			}
+			json.Unmarshal(f.Params, &p)
+			if p.URI == uri {
+				published++
+				last = len(p.Diagnostics)
+			}
+		}
+	}
+	if published > 0 && last > 0 {
+		a.Rec.Viol("C18/diagnostics/stale-after-close", "the diagnostics it last published are those of that text and version",
+			fmt.Sprintf("after didClose the last publication for the URI still carries %d diagnostics (of text the server saw in a didSave only)", last), map[string]interface{}{"uri": uri, "saved_text": bad})
 	}
 }
